@@ -32,26 +32,41 @@ Definition node_eqb (a b : node) : bool := jv_eqb (enc a) (enc b).
 Definition mergeable_key (k : str) : bool := sq "class" k || sq "style" k || starts_with (s_ "on") k.
 
 (* nested array literals of plain elements are flattened: class / style / listener lists *)
-Fixpoint flat_vals (fuel : nat) (v : node) : list node :=
-  match fuel with
-  | O => [v]
-  | S f =>
-      match v with
-      | Arr es =>
-          (* Vue flattens nested arrays of class / style / listener values; a spread element stays a
-             spread, a hole a hole *)
-          flat_map (fun e => match e with
-                             | Elem false x => flat_vals f x
-                             | Elem true x => [Spread x]
-                             | other => [other]
-                             end) es
-      | _ => [v]
-      end
+Fixpoint flat_vals (v : node) {struct v} : list node :=
+  match v with
+  | Arr es =>
+      (* Vue flattens nested arrays of class / style / listener values; a spread element stays a
+         spread, a hole a hole *)
+      (fix go (l : list node) : list node :=
+         match l with
+         | [] => []
+         | e :: r => (match e with
+                      | Elem false x => flat_vals x
+                      | Elem true x => [Spread x]
+                      | other => [other]
+                      end) ++ go r
+         end) es
+  | _ => [v]
   end.
+
+(* the listener `$event => (target) = $event`, canonical form *)
+Definition mk_listener (target : node) : node :=
+  Arrow 0 [BIdent (s_ "$event") 0 false nnull]
+        (Assign (s_ "=") (Paren target) (Ident (s_ "$event") 0 false)) false false nnull nnull.
+
+Definition is_listener (v : node) : option node :=
+  match v with
+  | Arrow _ [BIdent p _ _ _] (Assign op (Paren t) (Ident q _ _)) _ _ _ _ =>
+      if sq "$event" p && sq "$event" q && sq "=" op then Some t else None
+  | _ => None
+  end.
+
+Definition canon_value (v : node) : node :=
+  match is_listener v with Some t => mk_listener t | None => v end.
 
 Definition norm_contrib (c : contrib) : contrib :=
   match c with
-  | CKV k vs => if mergeable_key k then CKV k (flat_map (flat_vals 6) vs) else c
+  | CKV k vs => if mergeable_key k then CKV k (map canon_value (flat_map flat_vals vs)) else c
   | _ => c
   end.
 
@@ -132,21 +147,6 @@ Fixpoint contribs_perm (a b : list contrib) : bool :=
   | [] => match b with [] => true | _ => false end
   | x :: a' => match remove_contrib x b with Some b' => contribs_perm a' b' | None => false end
   end.
-
-(* the listener `$event => (target) = $event`, canonical form *)
-Definition mk_listener (target : node) : node :=
-  Arrow 0 [BIdent (s_ "$event") 0 false nnull]
-        (Assign (s_ "=") (Paren target) (Ident (s_ "$event") 0 false)) false false nnull nnull.
-
-Definition is_listener (v : node) : option node :=
-  match v with
-  | Arrow _ [BIdent p _ _ _] (Assign op (Paren t) (Ident q _ _)) _ _ _ _ =>
-      if sq "$event" p && sq "$event" q && sq "=" op then Some t else None
-  | _ => None
-  end.
-
-Definition canon_value (v : node) : node :=
-  match is_listener v with Some t => mk_listener t | None => v end.
 
 (* classification of one property of an object literal (generated or written by the user) *)
 Definition view_prop (p : node) : contrib :=
